@@ -10,7 +10,8 @@ from mc import statespace
 from mc import symtree as st
 
 ROOTS = st.ROOT_NAMES + ('typedobj', 'dict_sealed', 'list_sealed', 'obj_sealed', 'list_ro', 'dict_ro',
-                         'dict_partial', 'list_partial', 'obj_partial', 'withref', 'withleaf')
+                         'dict_partial', 'list_partial', 'obj_partial', 'withref', 'withleaf', 'withtuple',
+                         'unsealed_default_sealed', 'unsealed_root')
 HOWS = ('clone_deep', 'clone_shallow', 'deepcopy', 'copy')
 
 
@@ -40,6 +41,33 @@ def leaves(root):
     for k, v in st.children(node):
       if not st.is_container(v) and not isinstance(v, (int, float, str, bool, type(None), pg.Ref)) and not (pg.MISSING_VALUE == v):
         out.append((keys + (k,), v))
+  return out
+
+
+def deep_symbolic(root):
+  """All symbolic objects reachable from root, also through tuples and plain containers."""
+  out = {}
+
+  def rec(v, depth=0):
+    if depth > 12:
+      return
+    if isinstance(v, pg.Ref):
+      return
+    if isinstance(v, pg.Symbolic):
+      if id(v) in out:
+        return
+      out[id(v)] = v
+      if isinstance(v, (pg.Dict, pg.List, pg.Object)):
+        for _, c in v.sym_items():
+          rec(c, depth + 1)
+    elif isinstance(v, (tuple, list)):
+      for c in v:
+        rec(c, depth + 1)
+    elif isinstance(v, dict):
+      for c in v.values():
+        rec(c, depth + 1)
+
+  rec(root)
   return out
 
 
@@ -86,8 +114,9 @@ def fidelity(a, b, how, rec, trace, label):
   for clause, text in topo:
     rec.viol(f'topology:{clause}/{base}', text, trace)
     bad = True
-  ids_a = st.all_nodes([a])
-  ids_b = st.all_nodes([b])
+  # A tuple is a non-symbolic leaf: a shallow clone may share it (and whatever it holds).
+  ids_a = deep_symbolic(a) if deep else st.all_nodes([a])
+  ids_b = deep_symbolic(b) if deep else st.all_nodes([b])
   shared = set(ids_a) & set(ids_b)
   if shared:
     rec.viol(f'shares-symbolic-node/{base}', f'{len(shared)} symbolic containers are the same object in both copies', trace)
